@@ -338,7 +338,60 @@ def _sym_under(T, n, outs, neg):
     return True
 
 
-def fold_predicates(ck: Checker, rule='C12.FOLD'):
+FIXED_SUM = 'cirbo.core.circuit.utils.input_iterator_with_fixed_sum'
+
+
+def fold_iterator(ck: Checker, rule='C12.ITER'):
+    """The fixed-weight enumeration: every assignment of the requested weight (xor the
+    negation mask) exactly once, each as its own object -- a consumer (a user callable wrapped
+    in PyFunction may return or keep its argument) must not see a later assignment through an
+    earlier one."""
+    repo = ck.repo
+    um = repo.mod('cirbo.core.circuit.utils')
+    fn = um.func('input_iterator_with_fixed_sum')
+    it = Interp(repo, max_steps=2_000_000)
+    it.eager_generators.add(FIXED_SUM)
+    f = it.global_value(um, 'input_iterator_with_fixed_sum')
+    probs, cases = [], 0
+    for n in range(0, 5):
+        masks = [None] + ([list(m) for m in itertools.product((False, True), repeat=n)] if n <= 3 else [[True, False, True, False]])
+        for neg in masks:
+            for k in range(n + 1):
+                cases += 1
+                it.steps = 0
+                try:
+                    got = list(f(n, k, negations=neg) if neg is not None else f(n, k))
+                except InterpRaise as e:
+                    probs.append(f'n={n}, k={k}, negations={neg}: raises {e.exc_name}')
+                    continue
+                ng = neg or [False] * n
+                want = sorted(tuple(bool(v) ^ ng[i] for i, v in enumerate(xs)) for xs in itertools.product((False, True), repeat=n) if sum(xs) == k)
+                have = sorted(tuple(bool(v) for v in g) for g in got)
+                if have != want:
+                    probs.append(f'n={n}, k={k}, negations={neg}: after the generator has finished the yielded assignments read {have[:4]}..., expected each of {want[:4]}... exactly once')
+                elif len({id(g) for g in got}) != len(got):
+                    probs.append(f'n={n}, k={k}: the same object is yielded more than once')
+    sound = not probs
+    ck.check(not probs, rule, um, fn, f'input_iterator_with_fixed_sum folded for n<=4, every weight, every negation mask (n<=3): each assignment of that weight exactly once, each a fresh object ({cases} cases)',
+             '; '.join(probs[:3]), construct='input_iterator_with_fixed_sum enumeration')
+    # the three representations feed it the same arguments
+    users = 0
+    for modname, cname in ((TT, 'TruthTable'), (PF, 'PyFunction'), (CIRCUIT, 'Circuit')):
+        m = repo.mod(modname)
+        for meth in ('is_symmetric', 'is_symmetric_at'):
+            fn_ = m.func(f'{cname}.{meth}')
+            cs = [c for c in calls_in(fn_, 'input_iterator_with_fixed_sum')]
+            ok = len(cs) == 1 and [norm(a) for a in cs[0].args] == ['self.input_size', 'number_of_true'] and not cs[0].keywords
+            outer = [n_ for n_ in ast.walk(fn_) if isinstance(n_, ast.For) and norm(n_.target) == 'number_of_true']
+            ok = ok and len(outer) == 1 and norm(outer[0].iter) == 'range(self.input_size + 1)'
+            users += 1
+            ck.check(ok, rule, m, fn_, f'{cname}.{meth} enumerates every weight 0..input_size with input_iterator_with_fixed_sum(self.input_size, number_of_true)',
+                     'enumeration arguments changed', construct=f'{cname}.{meth} weight enumeration')
+    ck.floor(rule, 7)
+    return sound
+
+
+def fold_predicates(ck: Checker, rule='C12.FOLD', real_iterator=True):
     import random
     repo = ck.repo
     from ..interp import Host, Instance, RepoClass
@@ -351,8 +404,12 @@ def fold_predicates(ck: Checker, rule='C12.FOLD'):
                 v[i] = True ^ neg[i]
             yield v
 
-    ov = {'cirbo.core.circuit.utils.input_iterator_with_fixed_sum': fixed_sum}
-    it = Interp(repo, overrides=ov, max_steps=3_000_000)
+    # the repo's own generator is used (run to completion) when C12.ITER found it sound for
+    # that; otherwise the predicates are folded against an oracle enumeration so that the
+    # report names the generator once instead of every consumer
+    it = Interp(repo, overrides={} if real_iterator else {FIXED_SUM: fixed_sum}, max_steps=3_000_000)
+    if real_iterator:
+        it.eager_generators.add(FIXED_SUM)
     tm, pm, cm = repo.mod(TT), repo.mod(PF), repo.mod(CIRCUIT)
     TTc = RepoClass(tm, tm.cls('TruthTable'))
     PFc = RepoClass(pm, pm.cls('PyFunction'))
@@ -446,7 +503,7 @@ def fold_predicates(ck: Checker, rule='C12.FOLD'):
         ck.check(not probs, rule, cls_mod, cls_mod.cls(kind), f'{kind}: every protocol query equals its definition on {len(funcs)} small functions (all with <= 2 table rows of width 2, plus samples/all of 2x2 and 3x1)',
                  '; '.join(probs[:3]), construct=f'{kind} protocol queries vs definitions')
     ck.notes['protocol_queries_folded'] = n_q
-    ck.assume('input_iterator_with_fixed_sum enumerates every assignment with the given number of True inputs (its generator body is replaced by an oracle while folding the symmetric-check loops)')
+    ck.assume('input_iterator_with_fixed_sum is run to completion before its consumer when folding the symmetric-check loops (justified by C12.ITER: every yielded assignment is a fresh object)')
 
 
 def _tts(T):
@@ -459,4 +516,5 @@ _run_without_fold = run
 def run(ck: Checker):  # noqa: F811
     _run_without_fold(ck)
     ck.rule('C12.FOLD', 'every query of the function protocol, in all three representations, folded over all small Boolean functions and compared with its mathematical definition (and thereby with the sibling representations)')
-    fold_predicates(ck)
+    ck.rule('C12.ITER', 'input_iterator_with_fixed_sum folded as a generator run to completion: every assignment of the requested weight (xor the negation mask) exactly once and each yielded list a fresh object, so a callable that returns or keeps its argument cannot be compared with itself')
+    fold_predicates(ck, real_iterator=fold_iterator(ck))
